@@ -105,6 +105,15 @@ CLAIMED = {
         "Trusted: Lean kernel + standard axioms; float division and 32-bit casts not modelled (tolerances); SQLite vs DuckDB rounding at exact half-units excepted; scoring is C02's subject.",
         "DESIGN.md §6 C20",
     ),
+    "C09": (
+        "Lean 4 theorems about a model of every as_dict serialiser (with each emit-only-if condition as coded) and of the dict -> creators -> Settings construction path: reload (asDict s) = s for every "
+        "well-formed model on the same and on another backend (only dialect stamps change), second-generation dict identical to the first, construction through the creators' as_dict changes nothing, "
+        "user-supplied boundary values (TF weight 0, minimum u, m, u, labels, prefixes, retained columns) are kept and saved, well-formedness is preserved by training, the LEVEL_NOT_OBSERVED placeholder "
+        "is never saved, descriptions survive (and the negation for the code before the F9 repair). Tie: the real private state, saved JSON, reloaded linker and re-saved JSON vs the model at every "
+        "point of random training histories, from dicts and creators, salted/exploding rules, custom prefixes, both backends; oracle = predict() before vs after reload and generation-1 vs generation-2 JSON.",
+        "Trusted: Lean kernel + standard axioms; JSON float round trip of Python; default output column names and input_name of TF columns are parameters of the model.",
+        "DESIGN.md §6 C09",
+    ),
 }
 PENDING_REASON = "check not built yet (model/theorems/correspondence under construction per DESIGN.md §10b); not claimed until all three exist"
 
